@@ -302,7 +302,11 @@ impl AnimSection {
 
         // Determine the bone count
         let header_size = 16; // "AFID" + id + start + end
-        let remaining_size = size - header_size;
+        let remaining_size = size.checked_sub(header_size).ok_or_else(|| {
+            M2Error::ParseError(format!(
+                "ANIM section size {size} is smaller than its {header_size} byte header"
+            ))
+        })?;
         let bone_count = remaining_size / 4; // Each bone animation reference is 4 bytes
 
         // Read bone animation offsets
